@@ -151,7 +151,7 @@ CHECKS["C14"] = dict(
     text=("Same transition system with cancellation: disposing a scope aborts the tasks spawned under it; the executor later drops them and their guards. Proved for every state, schedule and "
           "disposal point: a pending task under the disposed scope becomes Cancelled and no later step of ANY continuation polls or completes it (C14_no_poll_after_dispose, "
           "C14_never_polled_again); no step, task drop or final root disposal panics (C14_no_panic, for the fixed guard; Example pinned_panics shows the panic of the code as pinned); after a "
-          "disposal the counter of every surviving boundary equals the number of tasks still pending under it (C14_counters_released, C14_counter_invariant_reachable). Every run inserts a disposal "
+          "disposal the counter of every surviving boundary equals the number of tasks still pending under it (C14_counters_released, C14_counter_invariant_reachable); after the disposal of the root nothing is loading, whatever was pending (C14_nothing_loading_after_root_disposal). Every run inserts a disposal "
           "of every scope at every position of several schedules over 5 base trees (348 cases quick), drains the executor, and compares poll logs, panics caught by the hook and loading flags with "
           "the model; the oracle restates the three clauses on the observed logs."),
     note=ATB, design="5.C14")
